@@ -112,7 +112,7 @@ class Scenario:
         problems: List[str] = []
         with World(rand=rand) as w:
             w.net.policy = policy
-            nh = 3 if self.name == "three" else 2
+            nh = 3 if self.name in ("three", "update-queued") else 2
             late = bool(self.variant.get("late"))
             socks = self.variant.get("socks", "single")
             A = w.new_zeroconf(name="A", mode=socks)
@@ -211,6 +211,17 @@ class Scenario:
                 t_op = v["browse_at"] + SETTLE_MS + 200
                 ops.append((t_op, lambda: w.spawn(op_unregister(A, "S1"))))
                 checkpoints.append(t_op + 300 + SETTLE_MS)
+            elif self.name == "update-queued":
+                # a browser asks by multicast right after the announcements, so the answer (with the SRV/TXT of that moment
+                # as additionals) waits in the one-second protection queue; the service is updated meanwhile; a browser on a
+                # third host, started after everything has been sent, must resolve what is advertised now
+                assert C is not None
+                ops.append((1000, lambda: w.spawn(op_register(A, "S1", S1))))
+                ops.append((v["browse_at"], lambda: start_browser("B/a", B, TA)))
+                newer = Svc(S1.type, S1.name, S1.server, S1.port + 1, S1.text, S1.v4, S1.v6)
+                ops.append((v["update_at"], lambda: w.spawn(op_update(A, "S1", newer))))
+                ops.append((v["update_at"] + 3000, lambda: start_browser("C/a", C, TA)))
+                checkpoints.append(v["update_at"] + 3000 + SETTLE_MS)
             elif self.name == "leave":
                 # the service is withdrawn (or its host closed) a few tens of milliseconds after a browser elsewhere started:
                 # the reply to the browser's first query and the goodbyes are on the link together
@@ -325,6 +336,9 @@ def plan(tier: str) -> List[Tuple[str, Dict[str, Any], int]]:
             ("leave", {"browse_at": 5000, "after": 30, "how": "unregister", "late": True, "socks": "dual"}, 2),
             ("leave", {"browse_at": 5000, "after": 130, "how": "close", "late": True, "socks": "dual"}, 2),
             ("idle", {"browse_at": 0}, 1), ("flap", {"browse_at": 0}, 1),
+            ("update-queued", {"browse_at": 1850, "update_at": 2000, "qm": True}, 1),
+            ("update-queued", {"browse_at": 1850, "update_at": 2000, "qm": True, "late": True}, 2),
+            ("update-queued", {"browse_at": 1850, "update_at": 2600, "qm": True, "late": True}, 1),
             ("stale-cache", {"browse_at": 2_400_000}, 2), ("stale-cache", {"browse_at": 3_900_000}, 1),
             ("stale-cache", {"browse_at": 2_400_000, "multi": True}, 1),
             ("three", {"browse_at": 500, "long": True}, 1), ("three", {"browse_at": 6000, "late": True, "long": True}, 1),
